@@ -180,11 +180,15 @@ func elecGenOp(t *Tape, ids []string, n *int) elecOp {
 		o.Kind, o.ID, o.Normal, o.ViaServer = "add", id, t.Flag(1, 2), false
 	case 3, 4:
 		o.Kind, o.ID, o.Normal = "update", id, t.Flag(1, 2)
-		switch t.Choose(3) {
+		switch t.Choose(5) {
 		case 1:
 			o.HasMask, o.Mask = true, []string{"normal"}
 		case 2:
 			o.HasMask, o.Mask = true, []string{"title"}
+		case 3:
+			o.HasMask, o.Mask = true, []string{} // present but empty
+		case 4:
+			o.HasMask, o.Mask = true, []string{"title", "normal"}
 		}
 	case 5, 6:
 		o.Kind, o.ID, o.AllowMiss = "delete", id, t.Flag(1, 2)
